@@ -91,6 +91,29 @@ def ref_reversals(y):
     return pv
 
 
+def ref_default_rule(y, tol):
+    """transcription of the documented default rule (locate.find_unique: a value is 'the same as the previous' if it
+    differs from its PREDECESSOR by no more than tol*max|dy|; then slope-sign changes on the remaining values; the last
+    remaining value is selected iff it differs from the one before it).  Used only to tell the known sub-tolerance
+    drift family (the rule itself misbehaves) from any other deviation."""
+    y = np.asarray(y, float)
+    n = len(y)
+    if n == 1:
+        return np.array([True])
+    d = np.diff(y)
+    stol = abs(tol * np.abs(d).max())
+    u = np.concatenate(([True], np.abs(d) > stol))
+    yu = y[u]
+    pv = np.ones(len(yu), bool)
+    if len(yu) > 2:
+        sg = np.sign(np.diff(yu))
+        pv[1:-1] = np.abs(np.diff(sg)) == 2
+        pv[-1] = yu[-1] != yu[-2]
+    out = np.zeros(n, bool)
+    out[u] = pv
+    return out
+
+
 def findap_msgs(y, tol, res):
     """returns list of (kind, msg)"""
     out = []
@@ -119,14 +142,25 @@ def findap_msgs(y, tol, res):
             out.append(("first/" + name, "findap[%s](%s, tol=%g): first sample not selected" % (name, y.tolist(), tol)))
         sel = y[pv]
         ds = np.diff(sel)
-        if np.any(ds == 0) or np.any(ds[:-1] * ds[1:] > 0):
-            out.append(("alternate/" + name, "findap[%s](%s, tol=%g) selects %s: not strictly alternating maxima/minima" % (name, y.tolist(), tol, sel.tolist())))
+        if np.any(ds[:-1] * ds[1:] > 0):
+            out.append(("samedir/" + name, "findap[%s](%s, tol=%g) selects %s: two consecutive moves in the same direction (a selected point is neither a maximum nor a minimum of the selection)" % (name, y.tolist(), tol, sel.tolist())))
+        elif np.any(ds == 0):
+            out.append(("alternate/" + name, "findap[%s](%s, tol=%g) selects %s: not strictly alternating maxima/minima (equal consecutive values)" % (name, y.tolist(), tol, sel.tolist())))
         if sel.max() < y.max() - stol * (1 + 1e-12) or sel.min() > y.min() + stol * (1 + 1e-12):
             out.append(("extreme/" + name, "findap[%s](%s, tol=%g) selects %s: global max %r / min %r not reached within tol*max|dy| = %g" % (name, y.tolist(), tol, sel.tolist(), y.max(), y.min(), stol)))
         if not subtol:
             want = ref_reversals(y)
             if not np.array_equal(pv, want):
                 out.append(("reference/" + name, "findap[%s](%s, tol=%g) = %s, brute-force reversal points %s" % (name, y.tolist(), tol, np.nonzero(pv)[0].tolist(), np.nonzero(want)[0].tolist())))
+    rule_ok = True
+    if subtol and "active" in got and got["active"].shape == (n,):
+        from pyyeti import cyclecount
+
+        want = ref_default_rule(y, tol)
+        if not cyclecount.HAVE_NUMBA and not np.array_equal(got["active"], want):
+            rule_ok = False
+            out.append(("rule/active", "findap[active](%s, tol=%g) = %s; the documented de-duplication + slope-sign rule gives %s" % (y.tolist(), tol, np.nonzero(got["active"])[0].tolist(), np.nonzero(want)[0].tolist())))
+    findap_msgs.rule_ok = rule_ok
     if len(got) == 2:
         a, b = got["active"], got["other-branch"]
         if a.shape == b.shape and not np.array_equal(a, b):
@@ -141,7 +175,7 @@ def check_findap(alpha, first, L, tol, res):
         y = (first,) + rest
         m, subtol = findap_msgs(y, tol, res)
         for kind, text in m:
-            msgs.append((dict(part="findap", y=list(y), tol=tol, subtol=subtol), text, kind))
+            msgs.append((dict(part="findap", y=list(y), tol=tol, subtol=subtol, rule_ok=getattr(findap_msgs, "rule_ok", True)), text, kind))
     return msgs
 
 
@@ -471,7 +505,7 @@ def _run(sh, res):
     if part == "findap":
         if "y" in sh:
             m, subtol = findap_msgs(sh["y"], sh["tol"], res)
-            return [(sh, t, k) for k, t in m]
+            return [(dict(sh, rule_ok=getattr(findap_msgs, "rule_ok", True)), t, k) for k, t in m]
         return check_findap(sh["alpha"], sh["first"], sh["L"], sh["tol"], res)
     if part == "tables":
         return check_tables(sh["first"], sh["L"], res)
@@ -524,7 +558,13 @@ def _m_drift(case, msg):
     """sub-tolerance drift family: the input has a non-zero step <= tol*max|dy|, and the failure is extreme capture,
     variant disagreement or a degenerate (non-alternating) selection - all consequences of comparing each sample with
     its predecessor instead of the last kept one.  Inputs without sub-tolerance steps are never matched."""
-    return case.get("part") == "findap" and case.get("subtol") and ("not reached within tol" in msg or "variants disagree" in msg or "not strictly alternating" in msg)
+    if not (case.get("part") == "findap" and case.get("subtol")):
+        return False
+    if "documented de-duplication" in msg:
+        return False  # the code no longer follows its documented rule: that is a different violation
+    if "findap[active]" in msg and not case.get("rule_ok", True):
+        return False
+    return "not reached within tol" in msg or "variants disagree" in msg or "not strictly alternating" in msg or "two consecutive moves" in msg
 
 
 FINDING_MATCHERS = {"C10-findap-subtolerance-drift": _m_drift}
